@@ -1,6 +1,6 @@
 (* C10 — every exit path leaves no spawned process behind.
    Property theorems only; proofs are in Proofs/SysProc.v, Proofs/SysRoot.v. *)
-From Zinoma.Proofs Require Import SysProc.
+From Zinoma.Proofs Require Import SysProc SysTerm.
 
 (* any mode, any interleaving, whichever way out (normal completion, failed target, signal): an actor that has left its
    loop holds neither a build script nor a service process — the kill and the reaping happen before the loop is left *)
@@ -20,6 +20,15 @@ Theorem C10_error_status_names_a_failure :
   forall (fx w : bool) (g : graph) (roots : list tid) (s : sys) (t : tid),
     reachable fx w g roots s -> status_of (ph s) = Some (SErr t) -> ObFail t ∈ hist s.
 Proof. intros fx w g roots s t. exact (status_names_failure fx g roots w s t). Qed.
+
+(* the logic of the shutdown never gets stuck: once termination has begun (normal completion, a failed target, SIGINT or
+   SIGTERM at any moment, any mode, any number of messages in flight) some step is enabled until the process has exited —
+   every actor has exited, still holds its termination message, or is a build whose cancellation result is due; no step
+   waits for a script to finish by itself (a cancelled script is killed) *)
+Theorem C10_shutdown_never_stuck :
+  forall (fx w : bool) (g : graph) (roots : list tid) (s : sys) (st : status),
+    reachable fx w g roots s -> ph s = PTerminating st -> quiescent fx w s = false.
+Proof. intros fx w g roots s st. exact (shutdown_never_stuck fx w g roots s st). Qed.
 
 (* non-vacuity: `b: [a]` requested, a signal arrives while a's script runs: the script is cancelled, both actors end, the
    process exits with nothing left *)
